@@ -11,7 +11,7 @@ exhaustive / traced correspondence.
 _IAM = "abtem/potentials/iam.py"
 _MS = "abtem/multislice.py"
 _INT = {"k": "Int", "n": "Int", "last": "Int", "first": "Int", "idx": "Int", "nplanes": "Int", "i": "Int", "cur": "Int",
-        "total": "Int"}
+        "total": "Int", "hasEns": "Bool"}
 
 
 def _s(name, file, func, select, params, pm, ret):
@@ -45,6 +45,8 @@ SITES = [
     _s("mEntrance", _MS, "multislice_and_detect", ("iftest", "exit_planes[0]", 0), ["first"],
        {"potential.exit_planes[0]": "first"}, "Bool"),
     # _validate_potential_ensemble_indices / _potential_ensemble_shape_and_metadata
+    _s("iNoEns", _MS, "_validate_potential_ensemble_indices", ("iftest", "ensemble_shape", 0), ["hasEns"],
+       {"potential.ensemble_shape": "hasEns"}, "Bool"),
     _s("iSinglePlane", _MS, "_validate_potential_ensemble_indices", ("iftest", "exit_planes", 0), ["nplanes"],
        {"len(potential.exit_planes)": "nplanes"}, "Bool"),
     _s("sPlaneAxis", _MS, "_potential_ensemble_shape_and_metadata", ("iftest", "exit_planes", 0), ["nplanes"],
